@@ -210,31 +210,55 @@ func VTMStep(K int) {
 	zzv.Cover("tm.end")
 }
 
-// VTMBase: a fresh manager loading an empty store is idle since now (base case) and a manager
-// restarted on the store of its last successful update resumes targets and idle instant.
+// VTMRestart: a fresh manager loading an empty store is idle since now (base case); after two
+// arbitrary updates - the second possibly refused by an update callback - a restart resumes the
+// last *acknowledged* assignment and the idle-since instant; a second restart changes nothing.
 func VTMRestart(K int) {
 	dir := zzv.TempDir()
 	t0 := zzv.Time("t0")
 	timeNow = func() time.Time { return t0 }
 	tm := NewTargetsManager(dir, prometheus.NewRegistry(), vLogger())
+	refuse := false
+	tm.AddUpdateCallbacks(func(map[string][]*target.Target) error {
+		if refuse {
+			return zzv.Err("reload failed")
+		}
+		return nil
+	})
 	err := tm.Load()
 	zzv.Assert("C10.base.load", err == nil)
 	i0 := tm.TargetsInfo()
 	zzv.Assert("C10.base.idle", len(i0.Status) == 0 && i0.IdleAt != nil && zzv.TimeNs(*i0.IdleAt) == zzv.TimeNs(t0))
-	req, want := vRequest(K, "r1")
-	zzv.Assert("C10.update.ok", tm.UpdateTargets(req) == nil)
-	before := tm.TargetsInfo()
+	req1, want1 := vRequest(K, "r1")
+	ta := zzv.Time("ta")
+	timeNow = func() time.Time { return ta }
+	zzv.Assert("C10.update1.ok", tm.UpdateTargets(req1) == nil)
+	acked, ackedIdle := want1, tm.TargetsInfo().IdleAt
+	if zzv.Choose("second.update", 2) == 1 {
+		req2, want2 := vRequest(K, "r2")
+		tb := zzv.Time("tb")
+		timeNow = func() time.Time { return tb }
+		refuse = zzv.Choose("second.refused", 2) == 1
+		err2 := tm.UpdateTargets(req2)
+		zzv.Assert("C10.update2.err", (err2 != nil) == refuse)
+		if !refuse {
+			zzv.Cover("restart.second.acked")
+			acked, ackedIdle = want2, tm.TargetsInfo().IdleAt
+		} else {
+			zzv.Cover("restart.second.refused")
+		}
+	}
 	// restart
 	t1 := zzv.Time("t1")
 	timeNow = func() time.Time { return t1 }
 	tm2 := NewTargetsManager(dir, prometheus.NewRegistry(), vLogger())
 	zzv.Assert("C09.restart.load", tm2.Load() == nil)
 	after := tm2.TargetsInfo()
-	vAssertResumed("C09.restart", K, after, want, before.IdleAt)
+	vAssertResumed("C09.restart", K, after, acked, ackedIdle)
 	// C10: the idle-since instant survives the restart (and is cleared when targets are assigned)
-	if len(want) == 0 {
+	if len(acked) == 0 {
 		zzv.Cover("restart.idle")
-		zzv.Assert("C10.restart.idle.kept", after.IdleAt != nil && before.IdleAt != nil && zzv.TimeNs(*after.IdleAt) == zzv.TimeNs(*before.IdleAt))
+		zzv.Assert("C10.restart.idle.kept", after.IdleAt != nil && ackedIdle != nil && zzv.TimeNs(*after.IdleAt) == zzv.TimeNs(*ackedIdle))
 	} else {
 		zzv.Assert("C10.restart.idle.cleared", after.IdleAt == nil)
 	}
@@ -244,8 +268,9 @@ func VTMRestart(K int) {
 	tm3 := NewTargetsManager(dir, prometheus.NewRegistry(), vLogger())
 	zzv.Assert("C09.restart2.load", tm3.Load() == nil)
 	again := tm3.TargetsInfo()
-	if len(want) == 0 {
-		zzv.Assert("C10.restart2.idle.kept", again.IdleAt != nil && before.IdleAt != nil && zzv.TimeNs(*again.IdleAt) == zzv.TimeNs(*before.IdleAt))
+	vAssertResumed("C09.restart2", K, again, acked, ackedIdle)
+	if len(acked) == 0 {
+		zzv.Assert("C10.restart2.idle.kept", again.IdleAt != nil && ackedIdle != nil && zzv.TimeNs(*again.IdleAt) == zzv.TimeNs(*ackedIdle))
 	}
 	zzv.Observe("restart", len(after.Status), after.IdleAt != nil)
 	zzv.Cover("restart.end")
